@@ -141,7 +141,7 @@ def check(run):
     layouts.sweep_modes(run, "rotate", [("rotate[horner=True]", lambda f: wl_.rotate(f, R_, horner=True)), ("rotate[horner=False]", lambda f: wl_.rotate(f, R_, horner=False)),
                                         ("Modes.rotate", lambda f: f.rotate(R_))],
                         [-2, 0, 1] if quick else range(-3, 4), exact=lambda nm: "True" in nm)
-    run.assumptions += ["f'(Q)=f(RQ), composition, inverse and block norms need the representation property of D, which is not proved: oracle sweep only",
+    run.assumptions += ["f'(Q)=f(RQ), composition, inverse and block norms are proved in exact arithmetic for every ell (HomAll.rot_* / rotate_*); their floating-point deviation bounds are swept",
                         "matrix route uses BLAS: compared numerically"]
 
 
